@@ -1,14 +1,46 @@
 /-
-  Sipsp.Proofs.SigCompose — the message signature after ANY way of parsing (C04 + C19 composition).
+  Sipsp.Proofs.SigCompose — the message signature after ANY way of parsing (composition lemmas for C04 and C19).
 
-  (1) the header slots the parser did not fill hold no fingerprinted header (they have type 0): an invariant (`ScMsg`)
-      established by Init / Reset, preserved by every ParseSIPMsg call (any buffer, offset, flags, verdict), which
-      gives `ScDone` after a successful parse; hence GetMsgSig never panics after any such history
-      (`sc_getMsgSig_safe*`) — the `hun` hypothesis of `getMsgSig_after_parse` is discharged.
-  (2) chunking: the signature after a chain of resumed calls is the signature after the one-shot call
-      (`sc_sig_chunking*`).
-  (3) capacities: header arrays that hold all headers give the same signature; a too small one gives the same
-      result or the truncated indication (`sc_sig_capacity*`).
+  All statements are about the model (`parseSIPMsg`, `getMsgSig`, `PSIPMsg.init`, `PSIPMsg.reset`); no size bound other
+  than the documented 65,535-byte limit where the re-used theorems need it.
+
+  (1) [C04] GetMsgSig never panics after a successful parse, whatever happened to the object before.
+      Invariants: `ScMsg` (header list: the slots after the current one are untouched, and the current one has no type
+      while in its initial state; once the header section is finished: every unfilled slot has type 0 = `ScDone`) and
+      `ScCt` (contacts: the entries above the one in progress are untouched).
+      * `ScMsg_init`, `ScMsg_reset`, `ScCt_init`: established by Init (of any object, cleared caller arrays of any
+        capacity or none) and by Reset (of any object);
+      * `sc_parseSIPMsg`, `sc_ct_parseSIPMsg`: preserved by EVERY ParseSIPMsg call — any buffer, offset, flags, verdict
+        (complete, suspended, failed, called again after an error, on an unrelated buffer); after OK: `ScDone`;
+        `sc_resumeRun` the same for chains of resumed calls; `ScReach` / `ScReach.inv`: for every history;
+      * `sc_getMsgSig_safe`: `getMsgSig_after_parse` without its hypothesis on the unused slots;
+        `sc_getMsgSig_safe_history` (any history, last call legitimate), `sc_getMsgSig_safe_init` (first call after
+        Init), `sc_getMsgSig_safe_schedule` (every chunk schedule from Init ending with OK; also on any extension of
+        the buffer, `sc_getMsgSig_ext`);
+      * `sc_reset_after_history`: Reset after any history IS an Init object, hence `sc_reset_legit`,
+        `sc_getMsgSig_safe_reset`, `sc_getMsgSig_safe_reset_schedule` with no legitimacy hypothesis left.
+  (2) [C19] chunking: `sc_sig_chunking` (every chunk schedule from Init ending with OK gives the object, hence the
+      GetMsgSig result, of the fresh one-shot calls), `sc_sig_chunking_whole` (a complete message handed over in any
+      number of pieces, every earlier piece boundary leaving an incomplete message: exactly the result of ONE call on
+      the whole buffer), `sc_sig_two_schedules` (two ways of cutting the same message: same signature).
+  (3) [C19] capacities: `sc_sig_fit` (two header arrays that both hold all `n` headers: same signature, verdict OK,
+      same panic flag), `sc_sig_small` (an array too small against one at least as large: truncated indication or
+      exactly the same result), `sc_sig_capacity` (both, for two runs from Init with any capacities over any chunk
+      schedule; the arrays keep their capacities: `sc_size_parseSIPMsg`, `sc_size_resumeRun`).
+      Loop level: `sc_loop_pad`, `sc_loop_append`, `sc_loop_prefix_pad`, `sc_loop_fit`.
+
+  NOT proved here:
+  * the legitimacy hypotheses (`msgOK2`, `MsgSafe`) of the LAST call in `sc_getMsgSig_safe_history` are assumptions (they
+    hold for a resumed call on an extension of the same buffer — C01 `resume_msg`, `parseSIPMsg_safe` — and for the
+    first call after Init / Reset); a history whose last call is not legitimate (e.g. resumed on an unrelated buffer)
+    is outside the statement, as it is outside C04;
+  * caller arrays handed to Init are assumed cleared (`Array.replicate k {}`), as in C01 / C04 / C13: Init does not clear
+    them, and a dirty array can hold a stale Via in an unused slot;
+  * in `sc_sig_chunking_whole` the hypothesis that every earlier prefix is incomplete is needed: without a
+    Content-Length the body extends to the end of the buffer of the call that completes the headers, so a schedule
+    that stops earlier returns another object (its signature is that of the one-shot call on THAT prefix:
+    `sc_sig_chunking`); equality of the signatures of two different OK prefixes is not proved;
+  * (3b) cannot be strengthened to "same signature": see the tests (capacity 3: shorter entry list + Trunc).
 -/
 import Sipsp.Proofs.SafeRest
 import Sipsp.Proofs.SigSpec
@@ -1339,5 +1371,36 @@ example : getMsgSig (parseSIPMsg scTestMsg 0 (scTestInit 3) 0).2.2 scTestMsg =
 example : (resumeRun (fun b o m => parseSIPMsg b o m 0) 0 (scTestInit 3) [scTestMsg]).2.1 = .ok ∧
     scCap 3 (some ()) < (resumeRun (fun b o m => parseSIPMsg b o m 0) 0 (scTestInit 3) [scTestMsg]).2.2.hl.n ∧
     scCap 3 (some ()) ≤ scCap 12 (some ()) := by decide +kernel
+
+/-- test message 2: the five fingerprinted headers first, then two others (7 headers) -/
+def scTestMsg2 : Buf := "OPTIONS sip:a@b SIP/2.0\r\nVia: SIP/2.0/UDP h\r\nFrom: <sip:a@b>;tag=1\r\nTo: <sip:c@d>\r\nCall-ID: x\r\nCSeq: 1 OPTIONS\r\nSubject: x\r\nContent-Length: 0\r\n\r\n".toUTF8.data
+
+/-- test (3c): a too small array (5 slots for 7 headers) that holds every flagged fingerprinted header before any other
+    one: no truncated indication, the same result as with a large array (the "or else the same" branch of (3b)) -/
+example : (parseSIPMsg scTestMsg2 0 (scTestInit 5) 0).2.2.hl.n = 7 ∧
+    (getMsgSig (parseSIPMsg scTestMsg2 0 (scTestInit 5) 0).2.2 scTestMsg2).2.1 = .ok ∧
+    getMsgSig (parseSIPMsg scTestMsg2 0 (scTestInit 5) 0).2.2 scTestMsg2 =
+      getMsgSig (parseSIPMsg scTestMsg2 0 (scTestInit 12) 0).2.2 scTestMsg2 := by decide +kernel
+
+/-- test (1g): an object that failed inside a header line, was used again in the error state (other buffer, offset,
+    flags), then Reset: reachable; the parse of the test message on it succeeds, so the hypotheses of
+    `sc_getMsgSig_safe_reset` are satisfiable -/
+def scTestUsed : PSIPMsg :=
+  (parseSIPMsg scTestMsg2 3
+    (parseSIPMsg "INVITE sip:a SIP/2.0\r\nVia x\r\n\r\n".toUTF8.data 0 (scTestInit 2) 0).2.2 4).2.2
+
+theorem scTestUsed_reach : ScReach scTestUsed :=
+  ScReach.parse _ _ _ (ScReach.parse _ _ _ (ScReach.init {} 0 2 0 (some ()) none))
+
+theorem scTestUsed_ok : (parseSIPMsg scTestMsg 0 scTestUsed.reset 0).2.1 = .ok ∧ scTestUsed.state = .err := by
+  decide +kernel
+
+example : (getMsgSig (parseSIPMsg scTestMsg 0 scTestUsed.reset 0).2.2 scTestMsg).2.2 = false := by
+  have he := scTestUsed_ok.1
+  generalize hp : parseSIPMsg scTestMsg 0 scTestUsed.reset 0 = r at he ⊢
+  obtain ⟨o', e, m'⟩ := r
+  simp only at he
+  subst he
+  exact sc_getMsgSig_safe_reset scTestUsed_reach scTestMsg 0 (Nat.zero_le _) 0 scTest_fit hp
 
 end Sipsp
